@@ -41,7 +41,7 @@ type World struct {
 	LeafFn   map[string]string            // source leaf type name → custom function name
 	// MethodSrc: source struct type → list of (fault function name, target field) for
 	// fallible source methods; Ctor: source struct type → fallible default constructor.
-	MethodSrc map[string][][2]string
+	MethodSrc map[string][][3]string
 	Ctor      map[string]string
 	// Enums: source enum type name → number of declared members (values 0..n-1).
 	Enums map[string]int
@@ -406,7 +406,11 @@ func Locations(w *World, v reflect.Value) map[verifsim.FaultKey][]verifsim.WrapE
 				record(verifsim.FaultKey{Fn: fn, ID: int(v.FieldByName("ID").Int())}, path, "")
 			}
 			for _, ms := range w.MethodSrc[t.Name()] {
-				record(verifsim.FaultKey{Fn: ms[0], ID: int(v.FieldByName("ID").Int())}, ext(path, verifsim.WrapElem{Kind: "field", Value: ms[1]}), t.Name())
+				id := int(v.FieldByName("ID").Int())
+				if ms[2] == "calc" {
+					id = id*7 + 1 // the map|FUNC function is keyed by the value the method returns
+				}
+				record(verifsim.FaultKey{Fn: ms[0], ID: id}, ext(path, verifsim.WrapElem{Kind: "field", Value: ms[1]}), t.Name())
 			}
 			if t.Name() != "" {
 				named = append(named, t.Name())
